@@ -21,7 +21,6 @@ import (
 
 	"github.com/vektah/gqlparser/v2"
 	"github.com/vektah/gqlparser/v2/ast"
-	"github.com/vektah/gqlparser/v2/gqlerror"
 	"github.com/vektah/gqlparser/v2/validator"
 
 	"github.com/99designs/gqlgen/complexity"
@@ -402,11 +401,12 @@ func (w *worker) evalOp(p *prepared) {
 			return
 		}
 		if cimpl != cref {
-			sig := "calc:" + p.text + "|" + asString(as)
+			kind, sig := "calc", "calc:"+p.text+"|"+asString(as)
 			if alt := RefComplexityAlt(p.op, as); alt == cimpl {
-				sig = "calc:interface-implementing-interface-counted-as-implementor-at-default-cost"
+				// its own kind, so that it does not use up the reporting slots of other mismatches
+				kind, sig = "calc-iface", "calc:interface-implementing-interface-counted-as-implementor-at-default-cost"
 			}
-			w.report(order, "calc", sig, fmt.Sprintf("complexity.Calculate = %d, reference = %d for %s | custom %s | variables %v", cimpl, cref, p.text, asString(as), p.rawVars), rp)
+			w.report(order, kind, sig, fmt.Sprintf("complexity.Calculate = %d, reference = %d for %s | custom %s | variables %v", cimpl, cref, p.text, asString(as), p.rawVars), rp)
 			return // the gate oracles below are stated in terms of the reference value
 		}
 		// monotonicity against every sub-operation
@@ -793,5 +793,3 @@ func runReplay(w *worker, schema *ast.Schema, path string) {
 			*rp.Limit, o.rejected, o.log, o.data, o.stats, o.otherErrs, o.panicValue)
 	}
 }
-
-var _ gqlerror.List
